@@ -193,6 +193,20 @@ def run_watson(key):
     for idx in np.ndindex(*stack):
         want[idx] = R.watson_logpdf(ys[idx], modes[idx], float(ks[idx]))
     bad = tol.mismatch(got, want, tol.TIGHT, scale=10.0, what='watson.log_pdf')
+    if not bad and kappa in (1.0, 10.0, 100.0):
+        # new concentration assigned to the evaluated object
+        mobj = d.ComplexWatson(mode=modes, concentration=ks)
+        first, e = _call(lambda: mobj.log_pdf(ys))
+        ks2 = np.asarray(ks) * 0.5 + 0.125
+        mobj.concentration = ks2
+        got2, e = _call(lambda: mobj.log_pdf(ys))
+        if e is not None:
+            return viol(f'ComplexWatson.log_pdf after re-assigning the concentration raised {e!r}')
+        want2 = np.zeros(stack + (4,))
+        for idx in np.ndindex(*stack):
+            want2[idx] = R.watson_logpdf(ys[idx], modes[idx], float(ks2[idx]))
+        bad = tol.mismatch(np.asarray(got2), want2, tol.TIGHT, scale=10.0,
+                           what='watson.log_pdf after re-assigning the concentration')
     if bad:
         return viol(bad, got, want)
     return ok(outcome=tol.digest(want))
@@ -252,6 +266,24 @@ def run_bingham(key):
     bad = tol.mismatch(got, want, tol.TIGHT, scale=10 * max(amp, 1.0) + cond, what='bingham.log_pdf')
     if bad:
         return viol(bad, got, want)
+    if sk in ('gap1', 'gap0.1', 'shifted'):
+        # the density is that of the parameters stored NOW: new eigenvalues assigned to the already evaluated
+        # object (and to a deep copy of it) are honoured by the next evaluation
+        import copy
+        lam2 = np.array(lams) * 0.5 - 0.25
+        for label, obj in (('same object', model), ('deep copy', copy.deepcopy(model))):
+            obj.covariance_eigenvalues = lam2.copy()
+            got2, e = _call(lambda: obj.log_pdf(ys))
+            if e is not None:
+                return viol(f'ComplexBingham.log_pdf after re-assigning the eigenvalues ({label}) raised {e!r}')
+            want2 = np.zeros(stack + (4,))
+            for idx in np.ndindex(*stack):
+                want2[idx] = R.bingham_logpdf(ys[idx], Us[idx], lam2[idx])
+            amp2 = R.bingham_amplification(lam0 * 0.5 - 0.25)
+            bad = tol.mismatch(np.asarray(got2), want2, tol.TIGHT, scale=10 * max(amp2, 1.0) + cond,
+                               what=f'bingham.log_pdf after re-assigning the eigenvalues ({label})')
+            if bad:
+                return viol(bad, got2, want2)
     return ok(outcome=tol.digest(want))
 
 
